@@ -83,8 +83,8 @@ PROPS = {
                         "assumptions": ["partial: independence from the initial buffer content is checked by the wp:/wd/wr/wpool streams, not by a theorem"]}),
     "C12": writer_prop("C12", ["sticky_write", "sticky_element", "sticky_field", "sticky_end", "sticky_fieldAny", "sticky_begin",
                                 "sticky_queries", "fail_keeps_first", "fail_records", "free_safe", "after_free_sticky",
-                                "reset_clean", "closed_handle", "double_end"], ["c12"],
-                       {"assumptions": ["partial: no_panic for all call sequences and build_ok_parses are decided by the differential stream and the Go-side oracle, not by a theorem",
+                                "reset_clean", "closed_handle", "double_end", "no_panic", "no_panic_from"], ["c12"],
+                       {"assumptions": ["partial: build_ok_parses is decided by the differential stream and the Go-side oracle, not by a theorem; no_panic excludes Copy/Merge from arbitrary bytes",
                                         "calls through a handle kind the Go type system rejects are outside the alphabet (bad-op)"]}),
     "C16": writer_prop("C16", ["common_field_unchanged", "absent_field_zero", "order_irrelevant"], ["c16"],
                        {"assumptions": ["partial: copy_preserves is checked by the merge-preserves-unknown stream and the Go round-trip oracle",
